@@ -917,6 +917,84 @@ def _replay_lagr_dup():
         return dict(confirmed=True, raised=repr(e)[:300])
 
 
+def _beam_star(dim, kind, released=None):
+    """three beams meeting at a joint J (each beam has its own node there), clamped far ends, a load on the middle of the second beam.
+    kind: 'fixed' / 'hinged' -> the three joint nodes are connected; 'merged' is not available (the mesher never merges), so the reference for a fixed joint is pairwise
+    connections, which is what the API documents"""
+    import contextlib
+    import io
+    from EasyFEA import Models, Simulations, ElemType, Mesher, SolverType
+    from EasyFEA.Geoms import Domain, Point, Line
+    with contextlib.redirect_stdout(io.StringIO()):
+        sect = Mesher().Mesh_2D(Domain(Point(-0.05, -0.1), Point(0.05, 0.1)))
+        J = Point(2.0, 0.0)
+        ends = [Point(0, 0), Point(4.0, 0.5), Point(2.0, 2.0)] if dim == 2 else [Point(0, 0, 0), Point(4.0, 0.5, 0.3), Point(2.0, 2.0, -0.4)]
+        beams = [Models.Beam.Isotropic(dim, Line(e, J, 0.5), sect, 210e3, v=0.3) for e in ends]
+        mesh = Mesher().Mesh_Beams(beams, elemType=ElemType.SEG2)
+        simu = Simulations.Beam(mesh, Models.Beam.BeamStructure(beams), verbosity=False)
+    simu.solver = SolverType.scipy
+    unk = simu.Get_unknowns()
+    joint = np.asarray(mesh.Nodes_Point(J))
+    for e in ends:
+        simu.add_dirichlet(mesh.Nodes_Point(e), [0] * len(unk), unk)
+    co = np.asarray(mesh.coord)
+    mid = int(np.argmin(np.linalg.norm(co - np.array([3.0, 0.25, 0.15 if dim == 3 else 0.0]), axis=1)))
+    simu.add_neumann(np.array([mid]), [-5.0] + ([2.0] if dim == 3 else []), ["y"] + (["z"] if dim == 3 else []))
+    return simu, mesh, unk, joint
+
+
+def ob_connection(dim, kind):
+    """Beam.add_connection_* on a joint where THREE beams meet (and on the pair case): the solve runs, every connected unknown takes one value at the joint nodes,
+    the unknowns a hinge leaves free are NOT tied, and chaining pairwise connections gives the same solution"""
+    simu, mesh, unk, joint = _beam_star(dim, kind)
+    if len(joint) != 3:
+        raise Unsupported(f"the mesher produced {len(joint)} nodes at the joint")
+    rot = [u for u in unk if u.startswith("r")]
+    tr = [u for u in unk if not u.startswith("r")]
+    try:
+        if kind == "fixed":
+            simu.add_connection_fixed(joint)
+            tied, free = unk, []
+        elif kind == "hinged":
+            simu.add_connection_hinged(joint)
+            tied, free = tr, rot
+        else:      # hinge about z in 3-D: rz released
+            simu.add_connection_hinged(joint, ["rz"])
+            tied, free = tr + ["rx", "ry"], ["rz"]
+        U = np.asarray(simu.Solve()).reshape(mesh.Nn, -1)
+    except Exception as ex:
+        raise Refuted(f"{dim}-D beams, {kind} connection of the three nodes of a joint: {type(ex).__name__}: {ex}", cex=dict(dim=dim, kind=kind, joint_nodes=joint.tolist()),
+                      signature=f"connection:{dim}:{kind}:raises", replay=dict(confirmed=True, raised=repr(ex)[:200]))
+    sc = float(np.abs(U).max())
+    for u in tied:
+        v = U[joint, unk.index(u)]
+        if np.abs(v - v[0]).max() > 1e-9 * sc:
+            raise Refuted(f"{dim}-D {kind} connection: unknown {u} takes the values {v.tolist()} at the joint nodes", cex=dict(dim=dim, kind=kind, unknown=u), signature=f"connection:{dim}:{kind}:tied",
+                          replay=dict(confirmed=True))
+    for u in free:
+        v = U[joint, unk.index(u)]
+        if np.abs(v - v[0]).max() < 1e-6 * np.abs(U[:, unk.index(u)]).max():
+            raise Refuted(f"{dim}-D {kind} connection: the rotation {u}, which the connection leaves free, takes one value {v.tolist()} at the three joint nodes: the joint transmits the moment "
+                          f"(constraints were added that the stated connection does not contain)", cex=dict(dim=dim, kind=kind, unknown=u, lagrange=[str(bc.unknowns) for bc in simu.Bc_Lagrange]),
+                          signature=f"connection:{dim}:{kind}:free", replay=dict(confirmed=True, values=v.tolist()))
+    # pairwise chaining is the same constraint set
+    simu2, mesh2, unk2, joint2 = _beam_star(dim, kind)
+    for a, b in ((0, 1), (1, 2)):
+        pair = joint2[[a, b]]
+        if kind == "fixed":
+            simu2.add_connection_fixed(pair)
+        elif kind == "hinged":
+            simu2.add_connection_hinged(pair)
+        else:
+            simu2.add_connection_hinged(pair, ["rz"])
+    U2 = np.asarray(simu2.Solve()).reshape(mesh2.Nn, -1)
+    e = float(np.abs(U - U2).max() / sc)
+    if e > 1e-8:
+        raise Refuted(f"{dim}-D {kind} connection of three nodes differs from the two pairwise connections by {e:.3e}", cex=dict(dim=dim, kind=kind), signature=f"connection:{dim}:{kind}:pairwise",
+                      replay=dict(confirmed=True, rel_err=e))
+    return Verdict(DISCHARGED, backend="native Beam simulation, multiplier solve", sub=len(tied) + len(free) + 1)
+
+
 def ob_lagrange_dup():
     u1, n2, nm = _beam_lagr(True, 0.01)
     u0, _, _ = _beam_lagr(False, 0.02)
@@ -1001,6 +1079,10 @@ def build(tier, seed):
         obs.append(Ob(f"C04.bordered.{tag}", ob_bordered, (dirichlet, lagr), "B", (f"{SOL}::__Solver_2",), bound="6-dof system, listed condition sets",
                       clause="system handed to the linear solver == [[A, aC'],[aC, 0]] [u;l] = [b; a v], one row per distinct constrained dof, values summed"))
     obs.append(Ob("C04.bordered.lemma", ob_bordered_lemma, (), "L", (), clause="bordered system => C u = v and free-space residual zero"))
+    for dim, kind in ((2, "fixed"), (2, "hinged"), (3, "fixed"), (3, "hinged"), (3, "hinged_rz")):
+        obs.append(Ob(f"C04.connection.{dim}d.{kind}", ob_connection, (dim, kind), "X", ("EasyFEA/Simulations/_beam.py::Beam.add_connection", "EasyFEA/Simulations/_beam.py::Beam.add_connection_hinged", f"{SOL}::__Solver_2"),
+                      bound="three beams meeting at one joint, one load", timeout=300,
+                      clause="the connected unknowns take one value at all joint nodes, the unknowns the connection leaves free are not tied, three nodes at once == pairwise chaining"))
     obs.append(Ob("C04.lagrange.dup", ob_lagrange_dup, (), "X", (f"{SOL}::__Solver_2", f"{SP}::_Simu._Bc_Lagrange_dim"), bound="one 2-beam frame",
                   clause="duplicated Dirichlet entries under the multiplier solver: finite, sum convention, connection exact", timeout=300))
     obs.append(Ob("C04.lagrange.beam", ob_lagrange, (), "X", (f"{SOL}::__Solver_2",), bound="one 2-beam frame", clause="connection constraints satisfied", timeout=300))
